@@ -57,7 +57,7 @@ EXHAUSTIVE_SCOPE = {
            "IOWorker._do_recv from a non-blocking fake socket, and read that way by a worker that starts in the connecting state and "
            "builds its OFConnection in the connect handler -- 1-cuts, dribbles, tails and bursts only): every 1-cut position for streams <= 3000 bytes; for larger "
            "streams the cut positions within 9 bytes of a message boundary, within 2 of a multiple of 2048/8192 and every 89th offset; "
-           "every 2-cut for streams <= 140 bytes, all pairs of positions within 9 bytes of a boundary for streams <= 3000 bytes, and all "
+           "every 2-cut for streams <= 120 bytes (direct read()/push paths; thorough: all paths), all pairs of positions within 9 bytes of a boundary for streams <= 3000 bytes, and all "
            "pairs of the offsets -1,0,1,3,4,7,8 around each boundary and of the first two 2048/8192 read boundaries for larger ones; dribble with chunk sizes "
            "1,2,3,5,7,8,9,2047,2048,2049,8191,8192,8193,16383,16384,16385; every truncation length of a trailing message (held, then "
            "completed); bursts of 2,31,32,33,34,40,64,65,100,255,256,257,300,1000,1024,1025 small messages x 3 type mixes delivered "
@@ -226,6 +226,47 @@ class CtlRx(object):
     return bytes(self.con.buf)
 
 
+class CtlLoopRx(CtlRx):
+  """The controller connection as the real dispatcher sees it: OpenFlow_01_Task.run() driven as a generator
+  (pvf.sim.loops.ControllerLoop) accepts the socket, creates the Connection and calls read() on every wake-up;
+  whatever run() makes of read()'s result (close, drop) is part of the read path."""
+
+  def __init__(self, raise_at=()):
+    from ..sim import loops as L
+    self.world = W.World()
+    _M[0].deferredSender = _Stub()
+    self.loop = L.ControllerLoop(self.world)
+    self.sock = W.FakeSock()
+    self.con = self.loop.connect(self.sock)
+    if self.con is None or not self.loop.alive:
+      raise HarnessError("the controller loop did not accept the connection")
+    self.delivered = []
+    self.raise_at = frozenset(raise_at)
+    self.con.handlers = [self._rec] * 256
+    self.received = 0
+    self.closed = False
+    self.loop_error = None
+
+  def push(self, seg, after):
+    self.sock.feed(seg)
+    while self.sock.inbox:
+      before = len(self.sock.inbox)
+      self.loop.step([self.con])
+      self.received += before - len(self.sock.inbox)
+      if not self.loop.alive:
+        self.loop_error = self.loop.ended
+        self.closed = True
+      elif self.sock.closed or self.con not in self.loop.selected:
+        self.closed = True
+      after()
+      if self.closed or len(self.sock.inbox) == before:
+        return
+
+  def finish(self):
+    self.loop.close()
+    self.world.close()
+
+
 class SwRx(object):
   """OFConnection on a real IOWorker, message handler replaced by a recorder."""
   side = "sw"
@@ -261,14 +302,29 @@ class SwRx(object):
 
   def _rec(self, conn, msg):
     self.delivered.append(msg)
-    if len(self.delivered) - 1 in self.raise_at:
-      raise HandlerBoom("handler fails on message %d" % (len(self.delivered) - 1))
+    k = len(self.delivered) - 1
+    if k in self.reenter_at and self.queue and self.last_piece:
+      # an in-process peer answers at once: the next segment reaches the same worker while this handler runs
+      seg = self.queue.pop(0)
+      self.nested += 1
+      for i in range(0, len(seg), self.READ):
+        self.received += len(seg[i:i + self.READ])
+        self.worker._push_receive_data(seg[i:i + self.READ])
+    if k in self.raise_at:
+      raise HandlerBoom("handler fails on message %d" % k)
+
+  reenter_at = frozenset()
+  queue = ()
+  last_piece = False
+  nested = 0
 
   def push(self, seg, after):
     for i in range(0, len(seg), self.READ):       # RecocoIOWorker._do_recv: recv(8192) then _push_receive_data
       d = seg[i:i + self.READ]
-      self.worker._push_receive_data(d)
+      self.last_piece = i + self.READ >= len(seg)
       self.received += len(d)
+      self.worker._push_receive_data(d)
+      self.last_piece = False
       if self.worker.closed or self.worker.shutdown_calls:
         self.closed = True
       after()
@@ -417,14 +473,22 @@ def run_case(case):
 
   # ---- run
   via = case.get("via", "push")
-  if via not in ("push", "recv") or (via == "recv" and side != "sw"):
-    raise HarnessError("via=%r is only defined for the switch side" % (via,))
+  if via not in ("push", "recv", "loop") or (via == "recv" and side != "sw") or (via == "loop" and side != "ctl"):
+    raise HarnessError("via=%r is not defined for side %r" % (via, side))
+  reenter = sorted(set(int(k) for k in (case.get("reenter") or [])))
+  if reenter and not (side == "sw" and via == "push"):
+    raise HarnessError("re-entrant pushes are a switch-side via=push scenario")
   state = {"bad": False, "k": 0, "burst": 0, "after_raise": 0}
   try:
     connecting = bool(case.get("connecting"))
     if connecting and (via != "recv" or pre):
       raise HarnessError("a connecting worker is a via=recv scenario without early data")
-    rx = CtlRx(raise_at) if side == "ctl" else (SwIoRx if via == "recv" else SwRx)(raise_at, stream[:pre], connecting)
+    if side == "ctl":
+      rx = CtlLoopRx(raise_at) if via == "loop" else CtlRx(raise_at)
+      out.label("via:" + ("task-loop" if via == "loop" else "read"))
+    else:
+      rx = (SwIoRx if via == "recv" else SwRx)(raise_at, stream[:pre], connecting)
+      rx.reenter_at = frozenset(reenter)
     if connecting:
       out.label("connecting:first-seg-%s" % (len(segs[0]) if len(segs[0]) <= 8 else "9+"))
   except Exception as e:
@@ -477,17 +541,29 @@ def run_case(case):
                "expected the %d undelivered bytes [%d:%d]" % (got, k, len(res), len(want), lo, got), side=side)
       state["bad"] = True
 
+  queue = list(segs)
+  rx.queue = queue
   try:
-    for seg in segs:
+    while queue:
       if state["bad"]:
         break
-      rx.push(seg, after)
+      rx.push(queue.pop(0), after)
   except Exception as e:
     if W_is_harness(e):
       raise
     out.violations.append({"key": exc_key(e, clause="read-raises", side=side),
                            "msg": "reading a well-formed stream raised %r" % (e,)})
     return out
+  finally:
+    if hasattr(rx, "finish"):
+      rx.finish()
+  if getattr(rx, "loop_error", None) is not None:
+    out.fail("loop-ended", "the controller's task loop ended while serving a well-formed stream: %r" % (rx.loop_error,), side=side)
+    return out
+  if reenter:
+    out.label("reenter:%s" % ("none" if not rx.nested else "nested-push"))
+    if rx.nested and len(msgs) >= 2:
+      out.nontrivial = True
   if raise_at:
     ar = state["after_raise"]
     out.label("raise:%s" % ("none-behind" if ar == 0 else "1-behind" if ar == 1 else "2+behind"))
@@ -612,13 +688,12 @@ def enum_cut1(tier):
 
 
 def enum_cut2(tier):
-  bound = 140 if tier == "quick" else 420
+  bound = 120 if tier == "quick" else 420
   for side, extra in _sides():
     for name, specs in catalogue(side):
-      if extra.get("connecting") and tier == "quick":
-        continue                       # connecting workers: 1-cuts, dribbles, tails and bursts (first-segment sizes matter)
-      if extra and sum(_lens(specs)) > bound and tier == "quick":
-        continue                       # the recv path repeats the exhaustive 2-cuts of the short streams only
+      if extra and tier == "quick":
+        continue                       # 2-cuts: Connection.read() and _push_receive_data only (the other paths get 1-cuts,
+                                       # dribbles, tails, bursts; thorough runs 2-cuts on every path)
       lens = _lens(specs)
       total = sum(lens)
       if total <= bound:
@@ -656,7 +731,7 @@ _CHUNKS = [1, 2, 3, 5, 7, 8, 9, 2047, 2048, 2049, 8191, 8192, 8193, 16383, 16384
 def _sides():
   """(side, extra case fields): the switch side is exercised both by pushing segments into the IOWorker and
   through IOWorker._do_recv on a non-blocking socket."""
-  return [("ctl", {}), ("sw", {}), ("sw", {"via": "recv"}), ("sw", {"via": "recv", "connecting": True})]
+  return [("ctl", {}), ("ctl", {"via": "loop"}), ("sw", {}), ("sw", {"via": "recv"}), ("sw", {"via": "recv", "connecting": True})]
 
 
 def burst_specs(side, count, variant):
@@ -684,7 +759,7 @@ def enum_raises(tier):
   """The message handler raises on message k (every k), with the rest of the stream already received or
   arriving in the same / a later read."""
   for side, extra in _sides():
-    if extra.get("connecting"):
+    if extra.get("connecting") or extra.get("via") == "loop":
       continue
     streams = [(n, sp) for n, sp in catalogue(side) if sum(_lens(sp)) <= 3000]
     streams.append(("burst40", burst_specs(side, 40, 2)))
@@ -703,6 +778,25 @@ def enum_raises(tier):
         yield dict(base, chunk=7, **{"raise": [k]})
       yield dict(extra, side=side, msgs=specs, cuts=[], **{"raise": list(range(len(specs)))})
       yield dict(extra, side=side, msgs=specs, cuts=[], **{"raise": list(range(0, len(specs), 2))})
+
+
+def enum_reenter(tier):
+  """Switch side: while the handler of message k runs, an in-process peer pushes the next segment into the same
+  IOWorker (nested delivery).  Every k x every 1-cut of the short streams (header-relative cuts of the others)."""
+  for name, specs in catalogue("sw") + [("burst40", burst_specs("sw", 40, 2))]:
+    lens = _lens(specs)
+    total = sum(lens)
+    if total > 3000:
+      continue
+    cuts = range(1, total) if total <= 140 else _special_offsets(lens, total)
+    ks = range(len(specs)) if len(specs) <= 8 else [0, 1, 5, 31, 32, 38]
+    for c in cuts:
+      for k in ks:
+        yield {"side": "sw", "msgs": specs, "cuts": [c], "reenter": [k]}
+    for k in ks:
+      bnds = [sum(lens[:i]) for i in range(1, len(lens))]
+      yield {"side": "sw", "msgs": specs, "cuts": bnds[:16], "reenter": list(range(len(specs)))}
+      yield {"side": "sw", "msgs": specs, "chunk": 11, "reenter": [k]}
 
 
 def enum_early(tier):
@@ -840,6 +934,8 @@ def case_strategy(draw, tier):
   lens = [len(R.build(s).data) for s in msgs]
   total = sum(lens)
   case = {"side": side, "msgs": msgs}
+  if side == "ctl" and draw(st.integers(0, 2)) == 0:
+    case["via"] = "loop"
   if side == "sw" and draw(st.booleans()):
     case["via"] = "recv"
     if draw(st.integers(0, 2)) == 0:
@@ -854,6 +950,8 @@ def case_strategy(draw, tier):
     case["raise"] = sorted(set(draw(st.lists(st.integers(0, max(0, nm - 1)), min_size=1, max_size=3))))
   if side == "sw" and not case.get("connecting") and draw(st.integers(0, 3)) == 0:
     case["pre"] = draw(st.one_of(st.integers(1, 40), st.integers(1, max(1, total - 1))))
+  if side == "sw" and "via" not in case and draw(st.integers(0, 3)) == 0:
+    case["reenter"] = sorted(set(draw(st.lists(st.integers(0, max(0, nm - 1)), min_size=1, max_size=3))))
   mode = draw(st.integers(0, 9))
   if mode == 0 and total < 20000:
     case["chunk"] = draw(st.sampled_from([1, 1, 2, 3, 4, 7, 8, 9, 13]))
@@ -880,14 +978,15 @@ def case_strategy(draw, tier):
 
 
 def plan(tier):
-  n = 6000 if tier == "quick" else 400000
+  n = 2000 if tier == "quick" else 400000
   return [
     Enum("cut1", lambda: enum_cut1(tier), shards=16),
     Enum("cut2", lambda: enum_cut2(tier), shards=16),
-    Enum("dribble", lambda: enum_dribble(tier), shards=16),
-    Enum("tail", lambda: enum_tail(tier), shards=16),
-    Enum("bursts", lambda: enum_bursts(tier), shards=16),
-    Enum("raises", lambda: enum_raises(tier), shards=16),
-    Enum("early", lambda: enum_early(tier), shards=16),
-    Hyp("kcuts", lambda: case_strategy(tier), examples=n, shards=16),
+    Enum("dribble", lambda: enum_dribble(tier), shards=4 if tier == "quick" else 16),
+    Enum("tail", lambda: enum_tail(tier), shards=2 if tier == "quick" else 16),
+    Enum("bursts", lambda: enum_bursts(tier), shards=4 if tier == "quick" else 16),
+    Enum("raises", lambda: enum_raises(tier), shards=2 if tier == "quick" else 16),
+    Enum("early", lambda: enum_early(tier), shards=2 if tier == "quick" else 16),
+    Enum("reenter", lambda: enum_reenter(tier), shards=2 if tier == "quick" else 16),
+    Hyp("kcuts", lambda: case_strategy(tier), examples=n, shards=8 if tier == "quick" else 16),
   ]
